@@ -22,7 +22,8 @@ RULE = ('cases = (entry point in {series_to_str, dataframe_column_to_str}) x col
 ASSUMPTIONS = ['str() of Python ints / floats is the reference string form of a number']
 SHARD_TIMEOUT = {'quick': 300, 'thorough': 1800}
 
-KINDS = ['int', 'float_integral', 'float_fractional', 'float_mixed', 'object_str', 'str']
+KINDS = ['int', 'float_integral', 'float_fractional', 'float_mixed', 'object_str', 'str', 'int32',
+         'float32_mixed', 'float32_integral']
 PATTERNS = ['none', 'some', 'all', 'empty']
 
 ANCHORS = {
@@ -51,6 +52,14 @@ def make_values(rng, kind, pattern):
     n = 0 if pattern == 'empty' else rng.randint(1, 8)
     if kind == 'int':
         vals = [rng.choice(INTS) for _ in range(n)]
+    elif kind == 'int32':
+        vals = [rng.choice([0, 1, -1, 7, 42, -300, 10 ** 9, -2 ** 31, 2 ** 31 - 1]) for _ in range(n)]
+    elif kind == 'float32_mixed':
+        vals = [float(np.float32(rng.choice([0.5, -1.25, 0.1, 3.0, 1e10, 1 / 3.0, -0.0, 7.0]))) for _ in range(n)]
+        if n:
+            vals[rng.randrange(n)] = float(np.float32(0.1))
+    elif kind == 'float32_integral':
+        vals = [float(np.float32(rng.choice([0.0, 1.0, -2.0, 100.0, 16777216.0, -4096.0]))) for _ in range(n)]
     elif kind == 'float_integral':
         vals = [rng.choice(INTEGRAL_FLOATS) for _ in range(n)]
     elif kind == 'float_fractional':
@@ -61,7 +70,7 @@ def make_values(rng, kind, pattern):
             vals[rng.randrange(n)] = rng.choice(FRACS)
     else:
         vals = [rng.choice(['a b', '12', '', 'x', 'nan', '3.0']) for _ in range(n)]
-    if kind == 'int':
+    if kind in ('int', 'int32'):
         return vals            # integer columns cannot hold NaN
     if pattern == 'some' and n:
         for i in rng.sample(range(n), rng.randint(1, max(1, n // 2))):
@@ -84,6 +93,10 @@ def make_index(n, style):
 def make_series(kind, vals, index=None):
     if kind == 'int':
         return pd.Series(vals, dtype='int64', index=index)
+    if kind == 'int32':
+        return pd.Series(vals, dtype='int32', index=index)
+    if kind.startswith('float32'):
+        return pd.Series(vals, dtype='float32', index=index)
     if kind.startswith('float'):
         return pd.Series(vals, dtype='float64', index=index)
     if kind == 'str':
@@ -96,7 +109,7 @@ def reference(kind, vals):
     present = [v for v in vals if not model.is_missing(v)]
     if kind in ('object_str', 'str'):
         return [None if model.is_missing(v) else v for v in vals]
-    if kind == 'int':
+    if kind in ('int', 'int32'):
         return [str(int(v)) for v in vals]
     all_integral = all(float(v).is_integer() for v in present)
     out = []
@@ -136,7 +149,8 @@ def run_case(case, rec, ssj=None):
     exp = reference(kind, vals)
     index = make_index(len(vals), rng.choice(['range', 'range', 'dup', 'const', 'str']))
     present = sum(1 for v in vals if not model.is_missing(v))
-    numeric = kind in ('int', 'float_integral', 'float_fractional', 'float_mixed')
+    numeric = kind in ('int', 'int32', 'float_integral', 'float_fractional', 'float_mixed', 'float32_mixed',
+                       'float32_integral')
     degenerate = numeric and present == 0          # the documented exception (empty / all-NaN numeric)
     tag = '%s(kind=%s, values=%r, index=%r, inplace=%r%s): ' % (
         'series_to_str' if entry == 'series' else 'dataframe_column_to_str', kind, vals, index, inplace,
@@ -222,7 +236,8 @@ def known_f6(entry, kind, inplace, present, exc):
     KNOWN_FINDINGS.txt): series_to_str(<numeric Series with a present value>, inplace=True) cannot
     change the dtype of the caller's Series object under pandas >= 3 and raises TypeError from
     Series.update."""
-    if entry == 'series' and inplace and kind in ('int', 'float_integral', 'float_fractional', 'float_mixed') \
+    if entry == 'series' and inplace and kind in ('int', 'int32', 'float_integral', 'float_fractional',
+                                                  'float_mixed', 'float32_mixed', 'float32_integral') \
             and present > 0 and isinstance(exc, TypeError) and 'Invalid value' in str(exc):
         return 'series-inplace-numeric-pandas3'
     return None
